@@ -239,17 +239,50 @@ class TreeFn(Generic[_FnT, _T]):
       self, input_iterator: Iterator[tree.TreeLike], ignore_error: bool = False
   ) -> Iterator[tree.TreeLike[_T]]:
     """Iterates through the input_iterator and calls the function."""
-    if ignore_error and self.fn_batch_size:
-      # Skips the failing inputs before they reach the rebatching generator,
-      # which an exception passing through would terminate.
-      input_iterator = iter_utils.iter_ignore_error(input_iterator)
-    fn_inputs = map(self._get_inputs, input_iterator)
-    if self.fn_batch_size:
-      fn_inputs = iter_utils.rebatched_args(
-          fn_inputs,
-          batch_size=self.fn_batch_size,
-          num_columns=self._num_inputs,
-      )
+    if not self.fn_batch_size:
+      fn_inputs = map(self._get_inputs, input_iterator)
+    else:
+      # A literal input is a constant, not a column of rows: only the other
+      # inputs are rebatched, the literals are put back afterwards.
+      literals = {
+          i: key.value
+          for i, key in enumerate(self.input_keys)
+          if isinstance(key, tree.Literal)
+      }
+
+      def get_columns(inputs):
+        columns = tuple(
+            column
+            for i, column in enumerate(self._get_inputs(inputs))
+            if i not in literals
+        )
+        # Validated here because an exception raised inside the rebatching
+        # generator terminates it.
+        sizes = set(iter_utils.batch_size(column) for column in columns)
+        if len(sizes) > 1:
+          raise ValueError(f'Inputs of different batch sizes: {sizes}.')
+        return columns
+
+      def with_literals(columns):
+        columns = list(columns)
+        for i, value in literals.items():
+          columns.insert(i, value)
+        return tuple(columns)
+
+      if ignore_error:
+        # Skips the failing inputs before they reach the rebatching generator.
+        input_iterator = iter_utils.iter_ignore_error(input_iterator)
+        fn_inputs = iter_utils.map_ignore_error(get_columns, input_iterator)
+      else:
+        fn_inputs = map(get_columns, input_iterator)
+      if len(literals) < self._num_inputs:
+        fn_inputs = iter_utils.rebatched_args(
+            fn_inputs,
+            batch_size=self.fn_batch_size,
+            num_columns=self._num_inputs - len(literals),
+        )
+      if literals:
+        fn_inputs = map(with_literals, fn_inputs)
     # Only ignore function call error.
     map_ = iter_utils.map_ignore_error if ignore_error else map
     fn_outputs = map_(self._maybe_call_fn, fn_inputs)
